@@ -16,7 +16,7 @@ def jx():
 
 
 SPACINGS = ('gauss', 'equiangular', 'equiangular_with_poles')
-TINY = [(1, 2, 4, 3), (3, 4, 8, 7), (4, 5, 12, 9), (4, 4, 9, 8)]
+TINY = [(1, 2, 4, 3), (3, 4, 8, 7), (4, 5, 12, 9), (4, 4, 9, 8), (2, 5, 6, 9)]   # last: L > M + 1 (zonally truncated)
 
 
 def resolves(M, L, lon, lat, spacing):
@@ -105,3 +105,56 @@ def cfg_levels(tier, seed=0):
       for s in ((0,) if tier == 'quick' else (0, 1, 2)):
         out.append((f'uneven{n}s{s + seed}', sigma_levels('uneven', n, s + seed)))
   return out
+
+
+# ---- model builders --------------------------------------------------------------------------------------
+
+
+def physics_specs(scale=None, **si):
+  from dinosaur import primitive_equations as pe
+  from dinosaur import scales
+  kw = dict(si)
+  if scale is not None:
+    kw['scale'] = scale
+  return pe.PrimitiveEquationsSpecs.from_si(**kw)
+
+
+def reference_temperature(kind, n, specs, seed=0):
+  """Non-dimensional reference profile of the given kind."""
+  from dinosaur import scales
+  units = scales.units
+  if kind == 'constant':
+    t = np.full(n, 288.0)
+  elif kind == 'linear':
+    t = np.linspace(220.0, 300.0, n)
+  elif kind == 'isothermal_top':
+    t = np.linspace(220.0, 300.0, n)
+    t[: max(2, n // 2)] = 220.0
+  else:
+    t = np.random.RandomState(77 + n + seed).uniform(200.0, 300.0, n)
+  return np.asarray(specs.nondimensionalize(t * units.degK), dtype=np.float64)
+
+
+def make_primitive(grid, sigma, tref_kind='linear', cls='dry', specs=None, orography=None, seed=0, **kw):
+  from dinosaur import coordinate_systems as cs
+  from dinosaur import primitive_equations as pe
+  specs = specs or physics_specs()
+  coords = cs.CoordinateSystem(grid, sigma)
+  tref = tref_kind if isinstance(tref_kind, np.ndarray) else reference_temperature(tref_kind, sigma.layers, specs, seed)
+  oro = np.zeros(grid.modal_shape) if orography is None else orography
+  klass = {'dry': pe.PrimitiveEquations, 'time': pe.PrimitiveEquationsWithTime, 'moist': pe.MoistPrimitiveEquations,
+           'cloud': pe.MoistPrimitiveEquationsWithCloudMoisture}[cls]
+  return klass(tref, oro, coords, specs, **kw)
+
+
+def zero_state(eq, tracers=(), with_time=None):
+  import jax.numpy as jnp
+  from dinosaur import primitive_equations as pe
+  c = eq.coords
+  with_time = isinstance(eq, pe.PrimitiveEquationsWithTime) if with_time is None else with_time
+  z = jnp.zeros(c.modal_shape)
+  zs = jnp.zeros(c.surface_modal_shape)
+  tr = {t: jnp.zeros(c.modal_shape) for t in tracers}
+  if with_time:
+    return pe.StateWithTime(z, z, z, zs, jnp.asarray(0.0), tr)
+  return pe.State(z, z, z, zs, tr)
